@@ -5,17 +5,28 @@
   suite) and quantify over all string functions `S` (camelCase / upper / split are opaque), all class
   trees, all mapper lists of any length, all instances of any nesting depth.
 
+  Layout:
+    * aggregation = pointwise composition (`agg_field_pointwise`, `ser_aggregate_pointwise_every_level`),
+      hence `serialize = Spec.specSer` at every depth (`spec_ser_eq_ser`);
+    * key-set law (`ser_keys_*`, `no_collision_if_injective`);
+    * round trip under per-level hypotheses, any `keep_undefined`, classes with or without
+      `_additional_properties = False` (`mapper_round_trip_K`, `mapper_round_trip`, `closed_tree_round_trip`);
+    * `Sync` proved inside the decidable region `regionOK` for any depth, `camel_case_convert` on or off
+      (`sync_in_region`, `mapper_round_trip_region`, `…_K`, `…_ascii`, `camel_idempotent_ascii`);
+    * the process-wide cache, call level and with the nested-class entries threaded
+      (`cache_transparent`, `history_transparent`, `cache_transparent_nested`, `history_transparent_nested`);
+    * wrappers (`bad_mapper_key_rejected`), several bases (`mro_collection_example`), Map values
+      (`serC_eq_ser`, `map_values_example`).
+
   What the code still violates (kept in the model, see the counterexample theorem and known finding):
     * `nested-resync` — the deserializer re-aggregates a nested class's mappers from the override it
-      is handed and can resolve different keys than the serializer used.
-  Fixed in /repo and in the model: `fallback-capture` (f476845: no fallback to the unmapped field name
-  when that name is another field's key) and `dns-blocks-deserialize` (e74486a: a `DoNotSerialize`
-  entry no longer makes `get_processed_input` raise); `fallback_capture_fixed` /
-  `dns_deserialize_fixed` are the former counterexamples, now round-tripping, and `mapper_round_trip`
-  no longer has a `NoFallbackCapture` hypothesis.
+      is handed and can resolve different keys than the serializer used (outside `regionOK`).
+  Fixed in /repo and in the model (former counterexamples, now round-tripping `…_fixed` theorems):
+  `fallback-capture` (f476845), `dns-blocks-deserialize` (e74486a), `inherited-closed-class-rejects-mapped-key`
+  (0225533), `keep-undefined-leak` (005d815), `keep-undefined-leak:deserialize_map` (73883e4, `map_values_example`).
   `C07_statement` is the full-strength round trip; `mapper_round_trip` is the `_partial` theorem whose
   decidable hypotheses (`levelOK` at every level) exclude exactly the remaining region (`Sync` fails
-  at a nested level).
+  at a nested level); `mapper_round_trip_region` discharges them inside `regionOK`.
 -/
 import TypedpyModel.Lemmas.MappersRegion
 import TypedpyModel.Lemmas.MappersCache
@@ -374,6 +385,7 @@ theorem rtFld_closed (S : StrFns) (camel : Bool) (lv : LevelPred) :
     ∀ (f : Fld) (ku : Bool) (ms M : MDict) (p : String × J), closedF f = true →
       rtFld S camel ku lv ms M f p = rtFld S camel false lv ms M f p
   | .scalar n o, _, _, _, _, _ => by simp [rtFld]
+  | .mapped n o ci fs, _, _, _, _, _ => by simp [rtFld]
   | .nested n o sh ci fs, ku, ms, M, p, h => by
     simp only [closedF, and_true_iff'] at h
     simp only [rtFld, h.1, exFree_closed, kuNext_false, Bool.true_and]
@@ -459,6 +471,7 @@ theorem flat_rtFields (S : StrFns) (camel ku : Bool) (lv : LevelPred) (ms M : MD
       simp only [flatConf, and_true_iff'] at h
       cases f with
       | nested n o sh own fs' => simp at hs
+      | mapped n o ci fs' => simp at hs
       | scalar n o =>
         simp only [rtFields, rtFld, and_true_iff']
         exact ⟨⟨h.1.1, h.1.2⟩, flat_rtFields S camel ku lv ms M fs rest hs.2 h.2⟩
@@ -542,6 +555,39 @@ theorem deser_aggregate_shape (S : StrFns) (c : Cls) (ov : Option MDict) (camel 
   simp only [regionOK, and_true_iff'] at h
   exact c07_foldAdd_base S c.fields _ h.1.1.2
 
+/-! ### plain mappers satisfy the step conditions of the region -/
+
+/-- an enum mapper, or a dict without `"<field>._mapper"` entries -/
+def plainMapper : Mapper → Bool
+  | .dict d => d.all fun p => match p.1 with | .fld _ => true | .nest _ => false
+  | _ => true
+
+theorem plain_lookup_nest (d : MDict) (c : String) (h : plainMapper (.dict d) = true) :
+    lookupR (.nest c) d = none := by
+  apply lookupR_none_of_not_mem
+  intro hm
+  obtain ⟨p, hp, hpk⟩ := List.mem_map.mp hm
+  unfold plainMapper at h
+  have := all_mem h hp
+  rw [hpk] at this
+  simp at this
+
+/-- **The per-round step conditions of the region are automatic for plain mappers**: an enum mapper or a
+    dict without `"<field>._mapper"` entries never takes the 'already maps to this value' branch on a
+    nested entry and lets the same sub-mapper through in both directions — so for a class tree whose
+    mappers are all plain, `prefixOK` only asks that no two entries collide. -/
+theorem step_ok_of_plain (S : StrFns) (m : Mapper) (P : List Mapper) (f : Fld) (h : plainMapper m = true) :
+    stepFldOK S m P f = true := by
+  cases f with
+  | scalar n o => rfl
+  | mapped n o ci fs => rfl
+  | nested n o sh ci fs =>
+    cases m with
+    | lower => simp [stepFldOK, stepNestOK, hit, subAgree]
+    | camel => simp [stepFldOK, stepNestOK, hit, subAgree]
+    | dict d =>
+      simp [stepFldOK, stepNestOK, hit, subAgree, plain_lookup_nest d _ h]
+
 /-- `_convert_to_camelcase` is idempotent on the driver's ASCII strings (its result has no underscore) -/
 theorem camel_idempotent_ascii (s : String) : asciiFns.camel (asciiFns.camel s) = asciiFns.camel s :=
   c07_camelAscii_idem s
@@ -553,8 +599,9 @@ theorem camel_idempotent_ascii (s : String) : asciiFns.camel (asciiFns.camel s) 
     sub-mapper the serializer uses (`prefixOK`: always so for enum mappers and dicts without
     `"<field>._mapper"` entries; for an explicit nested entry it means the entry is keyed by the name
     the field has at that round and is not dict-equal to the current nested aggregate); (2) every nested
-    field is mapped to a string key under which its re-keyed nested entry is found (`trackOK`); (3) a
-    class two or more levels down has no own mapper, or nothing from above reaches it (`reaggOK`);
+    field is mapped to a string key under which its re-keyed nested entry is found (`trackOK`); (3) re-aggregating
+    a class under the dict it is handed lands, entry by entry, on that dict again (`reaggOK`: so when a class two or
+    more levels down has no own mapper, or has one that the mappers reaching it from above leave alone);
     (4) no `_deserialization_mapper`.  There the level hypotheses `levelOK` (with `Sync`) follow at
     *every* depth from the demanded domain.  With `camel_case_convert` the deserializer applies
     `TO_CAMELCASE` once more at every level; this is harmless because the conversion is idempotent
@@ -885,6 +932,63 @@ theorem region_nested_entry_example :
     regionOK upFns rtCls2 none false = true ∧ regionOK upFns rtCls2 none true = true
     ∧ rtCls upFns false (levelDomE upFns) rtCls2 (aggregate upFns true rtCls2.own rtCls2.fields none false)
         none false rtInst2 = true := by
+  decide
+
+/-- `_convert_to_camelcase` on the two snake_case names of the example (idempotent) -/
+def cmFns : StrFns := ⟨fun s => if s = "a_b" then "aB" else if s = "g_h" then "gH" else s, id, fun s => [s]⟩
+def ceG : List Fld := [.scalar "a_b" false]
+def ceMid : List Fld := [.nested "g_h" false .one { ser := [.camel] } ceG, .scalar "y" false]
+def ceTop : Cls := { own := [.camel], fields := [.nested "m" false .one { ser := [.camel] } ceMid] }
+
+/-- non-vacuity of the third clause of the region in its general form: `TO_CAMELCASE` on *every* class of a
+    three-level tree — the grand-nested class has an own mapper under mappers that reach it, but they
+    leave its keys alone — is inside the region, with `camel_case_convert` off and on; the instance is
+    inside the domain and the innermost key is the camelCase one -/
+theorem region_enum_everywhere_example :
+    regionOK cmFns ceTop none false = true ∧ regionOK cmFns ceTop none true = true
+    ∧ rtCls cmFns true (levelDomE cmFns) ceTop (aggregate cmFns true ceTop.own ceTop.fields none true)
+        none false (.obj [("m", .obj [("g_h", .obj [("a_b", .int 1)]), ("y", .int 2)])]) = true
+    ∧ isOkEq (.ok (serialize cmFns true ceTop none (.obj [("m", .obj [("g_h", .obj [("a_b", .int 1)]), ("y", .int 2)])])))
+        (fun d => match d with
+          | .obj [("m", .obj [("gH", .obj [("aB", .int 1)]), ("y", .int 2)])] => true
+          | _ => false) = true := by
+  decide
+
+/-! ### structures stored as Map values -/
+
+/-- the class-directed serializer (which serializes the values of a `Map[String, Cls]` field as calls of
+    their own) is `serialize` on every instance without Map-valued fields: all theorems about `serialize`
+    are theorems about what the driver runs -/
+theorem serC_eq_ser (S : StrFns) (camel : Bool) (c : Cls) (ov : Option MDict) (x : J)
+    (hc : conf c.fields x = true) : serializeC S camel c ov x = serialize S camel c ov x :=
+  c07_serC_eq_ser S camel x _ c.fields hc
+
+/-- `class N: q: int; _serialization_mapper = {'q': 'k'}`, `class O: m: Map[String, N]; z: int;
+    _serialization_mapper = {'z': 'Z', 'm': 'M'}` -/
+def mvO : Cls :=
+  { own := [.dict [(.fld "z", .key "Z"), (.fld "m", .key "M")]],
+    fields := [.mapped "m" false { ser := [.dict [(.fld "q", .key "k")]] } [.scalar "q" false], .scalar "z" false] }
+def mvInst : J := .obj [("m", .obj [("x_y", .obj [("q", .int 1)])]), ("z", .int 2)]
+
+/-- Map values (modelled and corresponded; outside the round-trip theorems): the map keys are left alone,
+    the value is written under its own class's keys only (`k`, not `K`: nothing of the containing class
+    passes through), and — former finding `keep-undefined-leak:deserialize_map`, fixed by /repo 73883e4 —
+    the value class is deserialized with the caller's `keep_undefined`: with the default (`False`) the
+    instance comes back as it was; only an explicit `True` keeps the renamed keys (`k` in the value, `M` and
+    `Z` on the open class `O` itself) as attributes -/
+theorem map_values_example :
+    isOkEq (.ok (serializeC upFns false mvO none mvInst))
+        (fun d => match d with
+          | .obj [("M", .obj [("x_y", .obj [("k", .int 1)])]), ("Z", .int 2)] => true
+          | _ => false) = true
+    ∧ isOkEq (deserK upFns false false mvO none false (serializeC upFns false mvO none mvInst))
+        (fun y => match y with
+          | .obj [("m", .obj [("x_y", .obj [("q", .int 1)])]), ("z", .int 2)] => true
+          | _ => false) = true
+    ∧ isOkEq (deserK upFns false true mvO none false (serializeC upFns false mvO none mvInst))
+        (fun y => match y with
+          | .obj [("m", .obj [("x_y", .obj [("q", .int 1), ("k", .int 1)])]), ("z", .int 2), ("M", _), ("Z", _)] => true
+          | _ => false) = true := by
   decide
 
 end Typedpy.C07
